@@ -460,7 +460,7 @@ static std::vector<Combo> combos() {
    add("append", {"pe"}, {"cstr", "str", "fs", "fs2", "ch"});
    add("sprintf", {"fmt"}, {"str"});
    add("replace", {"pos_cnt"}, {"cstr", "str", "fs", "fs2", "str_pos_cnt", "str_pos", "fs_pos_cnt", "fs_pos", "fs2_pos_cnt", "fs2_pos", "cnt_ch", "cstr_cnt"});
-   add("replace", {"it_it"}, {"fsit", "selfit", "strit", "cstr_cnt", "cstr", "cnt_ch", "ilist"});
+   add("replace", {"it_it"}, {"fsit", "strit", "cstr_cnt", "cstr", "cnt_ch", "ilist"});   // not "selfit": aliasing undocumented
    add("swap", {"other"}, {"fs"});
    add("swap", {"self"}, {"none"});
    add("set", {"at", "idx", "it", "rit", "front", "back"}, {"ch"});
